@@ -96,7 +96,14 @@ Definition eout_eqb (a b : eout) : bool :=
   end.
 (* ev_direct: what lowpass(cutoff) itself returned on the rectified / squared
    samples (computed by the harness with a second, direct filter call) *)
-Record evcase := EV { ev_s : env_strategy; ev_g : Qc; ev_a1 : Qc; ev_xs : list Qc;
+(* ev_cw: cos(cutoff) (the harness's own float, exact value).  The documented contract of
+   lowpass(cutoff) = g / (1 + a1 z^-1): unit gain at DC, g = 1 + a1, and half the power at the
+   cut-off frequency, 2 g^2 = |1 + a1 e^-jw|^2 = 1 + 2 a1 cos w + a1^2; both within 1e-9 (floats). *)
+Definition lp_tol : Qc := qc 1 1000000000.
+Definition lp_contract (g a1 cw : Qc) : bool :=
+  Qc_leb (qabs (g - (1 + a1))) lp_tol
+  && Qc_leb (qabs ((1 + 1) * g * g - (1 + (1 + 1) * a1 * cw + a1 * a1))) lp_tol.
+Record evcase := EV { ev_s : env_strategy; ev_g : Qc; ev_a1 : Qc; ev_cw : Qc; ev_xs : list Qc;
                       ev_direct : list Qc; ev_obs : res (list eout) }.
 Definition corr_env (c : evcase) : bool :=
   res_eqb (list_eqb eout_eqb) (ev_obs c) (Ok (envelope (ev_s c) (ev_g c) (ev_a1 c) (ev_xs c))).
@@ -108,7 +115,8 @@ Definition env_input (s : env_strategy) (xs : list Qc) : list Qc :=
    and that low-pass is the one-pole recursion's closed form *)
 Definition holds_env (c : evcase) : bool :=
   res_eqb (list_eqb eout_eqb) (ev_obs c) (Ok (env_wrap (ev_s c) (ev_direct c)))
-  && qlist_eqb (ev_direct c) (lowpass_spec (ev_g c) (ev_a1 c) (env_input (ev_s c) (ev_xs c))).
+  && qlist_eqb (ev_direct c) (lowpass_spec (ev_g c) (ev_a1 c) (env_input (ev_s c) (ev_xs c)))
+  && lp_contract (ev_g c) (ev_a1 c) (ev_cw c).
 (* (the two conjuncts together say  obs = envelope_spec s g a1 xs) *)
 
 (* ---------------------------------------------------------------- clip *)
@@ -254,3 +262,17 @@ Definition holds_live (c : lvcase) : bool :=
             && match lv_final c with None => true | Some n => (n <=? length (lv_xs c))%nat end
   | Err e => multi_holds1 (lv_tool c) (lv_zero c) (lv_xs c) (Err e)
   end.
+
+(* ---------------------------------------------------------------- envelope with a Stream of cut-off values
+   tv_coefs: (g, a1, cos cutoff) of lowpass(cutoff_k) for every element of the cutoff stream
+   (scalar design calls made by the harness); the envelope must be the time-varying one-pole
+   recursion with those coefficients, and every coefficient pair must meet the low-pass contract *)
+Record tvcase := TV { tv_s : env_strategy; tv_coefs : list (Qc * Qc * Qc); tv_xs : list Qc;
+                      tv_obs : res (list eout) }.
+Definition tv_run (c : tvcase) : list eout :=
+  env_wrap (tv_s c)
+    (lowpass_tv 0 (map fst (tv_coefs c))
+       (match tv_s c with EAbs => map qabs (tv_xs c) | _ => map (fun v => v * v) (tv_xs c) end)).
+Definition corr_tv (c : tvcase) : bool := res_eqb (list_eqb eout_eqb) (tv_obs c) (Ok (tv_run c)).
+Definition holds_tv (c : tvcase) : bool :=
+  corr_tv c && forallb (fun p => lp_contract (fst (fst p)) (snd (fst p)) (snd p)) (tv_coefs c).
